@@ -164,7 +164,7 @@ def check(run):
         return
     binpath = os.path.join(bindir, "vp-simulate")
     rng = run.rng
-    n = 36 if run.tier == "quick" else 600
+    n = 36 if run.tier == "quick" else 300    # thorough: ~15 min of CLI runs (each configuration = 1 --quiet run + listing runs)
     cases = [gen_case(rng) for _ in range(n)]
     # fixed witness of the known finding: partitioned session windows are flushed only by the single-worker path
     cases.insert(0, ([{"name": "S1", "kind": "pipe", "src": "A", "ops": [["partition"], ["session", 2], ["agg"], ["emit"]]}],
